@@ -181,7 +181,7 @@ def gen_pos(rng, n_ops):
             lines.append("pos 0 reschedall")
             sh.reschedule_all(lambda o: gp.get(o, 0))
         elif r < 0.90:
-            lines.append("pos 0 " + rng.choice(["iter", "len", "bool"]))
+            lines.append("pos 0 " + rng.choice(["iter", "len", "bool", f"in {target()}"]))
         elif r < 0.92:
             lines.append("pos 0 clear")
             sh.clear()
@@ -409,6 +409,8 @@ def oracle_pos(lines, outs, tags):
             exp = f"n {len(q)}"
         elif op == "bool":
             exp = f"b {1 if len(q) else 0}"
+        elif op == "in":
+            exp = f"b {1 if q.has(int(a[0])) else 0}"
         elif op in ("iter", "drain"):
             objs = [int(x) for x in out[5:].split(",") if x] if out.startswith("list") else None
             if objs is None:
